@@ -49,13 +49,18 @@ func ReadFileAt(dir *os.File, filename string) ([]byte, error) {
 		return nil, serr
 	}
 	buf := make([]byte, stat.Size)
-	n, rerr := unix.Read(fd, buf)
-	if rerr != nil {
-		unix.Close(fd)
-		return nil, rerr
-	}
-	if n != len(buf) {
-		buf = buf[:n]
+	// read(2) may return fewer bytes than requested: continue until the buffer is full
+	for off := 0; off < len(buf); {
+		n, rerr := unix.Read(fd, buf[off:])
+		if rerr != nil {
+			unix.Close(fd)
+			return nil, rerr
+		}
+		if n <= 0 {
+			unix.Close(fd)
+			return nil, io.ErrUnexpectedEOF
+		}
+		off += n
 	}
 	unix.Close(fd)
 	return buf, nil
